@@ -175,14 +175,14 @@ PROPS["C10"] = {
 
 PROPS["C17"] = {
     "level": "exploration",
-    "level_text": "held on N calls: each generated key-value call (empty / unicode / NUL / very long keys and prefixes, empty / binary / up to 1 MiB values, boundary cursors) emitted exactly one operation equal to the call's arguments, and each generated shell answer (absent vs present-empty vs present, pages, cursors, every error variant) reached the app as exactly one, unaltered outcome - through the capability API, the command API, the typed core and the bincode / JSON bridges.",
+    "level_text": "held on N calls: each generated key-value call (empty / unicode / NUL / very long keys and prefixes, empty / binary / up to 1 MiB values, boundary cursors) emitted exactly one operation equal to the call's arguments, and each generated shell answer (absent vs present-empty vs present, pages, cursors, every error variant) reached the app as exactly one, unaltered outcome - through the capability API (callback flavour, async flavour, async future probed once with another waker before it is awaited), the command API, the typed core and the bincode / JSON bridges.",
     "level_note": "identity oracle; response kinds always match the operation (a mismatched kind is a documented developer-error panic)",
     "technique": "identity monitor over generated calls and answers on six shells",
     "rule": "random (operation, arguments, answer) x API x shell; non-trivial = call whose operation and outcome were both compared; distinct = hash of (job, shell, answer)",
     "lanes": [caplab("kvlab", 4, 16)],
     "floors": {"quick": {"evaluations": 6000, "distinct_nontrivial": 4000},
                "thorough": {"evaluations": 1500000, "distinct_nontrivial": 800000}},
-    "must_cover": {"operations": ["Get", "Set", "Delete", "Exists", "ListKeys"], "apis": ["Legacy", "Command"],
+    "must_cover": {"operations": ["Get", "Set", "Delete", "Exists", "ListKeys"], "apis": ["Legacy", "Command"], "capability_api_flavours": ["callback", "async", "async-probed-first"],
                    "answers": ["absent", "present-empty", "present", "exists", "keys", "Err::Io", "Err::Timeout", "Err::CursorNotFound", "Err::Other"],
                    "shells": ["Core(derive)", "Core(attribute)", "Bridge bincode(derive)", "Bridge JSON(derive)"]},
     "assumptions": [],
@@ -270,14 +270,14 @@ PROPS["C12"] = {
 
 PROPS["C13"] = {
     "level": "exploration",
-    "level_text": "bounded restatement (a finite run cannot observe 'unbounded'): for 26 repeated patterns over K cycles (request/response cycles through both APIs, both bridges and the typed core, a one-shot answered with garbage, timers set/fire, set/clear/fire, fire/late-clear, renders, subscribe/one item/consumer ends over bridge and core, sibling tasks with one request dropped and the other resolved before the core runs again, a long-lived command extended from outside, timers started and cleared in one update, request futures that are created and never polled through the command API, the capability API and a capability future inside a command task) the occupancy of the bridge registry (by kind), the core's executor, the command's task slab and the cleared-timer set - read through the crux_verif hooks with nothing outstanding at cycles 1, K/2 and K - did not grow, except for the listed known findings; and the number of live heap allocations (counting global allocator, independent of the hooks) did not grow between K/2 and K in any pattern without a listed finding. Held values of finished / cancelled / aborted-before-first-poll tasks are covered by the drop-counter ledger of the cmdlab checks (C04/C06/C07, signature held-value/not-released).",
+    "level_text": "bounded restatement (a finite run cannot observe 'unbounded'): for 28 repeated patterns over K cycles (request/response cycles through both APIs, both bridges and the typed core, a one-shot answered with garbage, timers set/fire, set/clear/fire, fire/late-clear, renders, renders acknowledged by the shell, subscribe/one item/consumer ends over bridge and core, sibling tasks with one request dropped and the other resolved before the core runs again, a long-lived command extended from outside, timers started and cleared in one update, request futures that are created and never polled through the command API, the capability API and a capability future inside a command task) the occupancy of the bridge registry (by kind), the core's executor, the command's task slab and the cleared-timer set - read through the crux_verif hooks with nothing outstanding at cycles 1, K/2 and K - did not grow, except for the listed known findings; and the number of live heap allocations (counting global allocator, independent of the hooks) did not grow between K/2 and K in any pattern without a listed finding. Held values of finished / cancelled / aborted-before-first-poll tasks are covered by the drop-counter ledger of the cmdlab checks (C04/C06/C07, signature held-value/not-released).",
     "level_note": "legacy-API tasks whose request is dropped are excluded (the legacy executor has no cancellation; the property's mechanisms are anchored in command/executor.rs); growth is judged between K/2 and K so warm-up effects cannot raise an alarm",
     "technique": "occupancy monitor over long repeated histories (hooked registries / slabs / sets) + live-allocation monitor (counting global allocator) + drop counters; LeakSanitizer lanes on the command-lab workloads",
     "rule": "pattern x K cycles (K = 2000 quick, 200000 thorough); non-trivial = pattern whose five occupancy quantities and live-allocation count stayed flat; distinct = (pattern, K)",
     "lanes": [caplab("occlab", 4, 16)],
     "floors": {"quick": {"evaluations": 15, "distinct_nontrivial": 10, "cycles_run": 30000},
                "thorough": {"evaluations": 15, "distinct_nontrivial": 10, "cycles_run": 3000000}},
-    "must_cover": {"patterns": ["kv-cycle(command api)", "kv-cycle(capability api)", "render(command api)", "timer-set-fire(command api)", "subscribe-one-item-consumer-ends(bridge)", "subscribe-one-item-consumer-ends(core)", "one-shot-answered-with-garbage", "sibling-tasks-drop-one-resolve-other(core)", "long-lived-command-extended-repeatedly(direct)", "request-future-never-polled(capability api)", "request-future-never-polled(command api)", "timer-set-then-clear-in-one-update(capability api, typed)"]},
+    "must_cover": {"patterns": ["kv-cycle(command api)", "kv-cycle(capability api)", "render(command api)", "render-acknowledged(command api)", "timer-set-fire(command api)", "subscribe-one-item-consumer-ends(bridge)", "subscribe-one-item-consumer-ends(core)", "one-shot-answered-with-garbage", "sibling-tasks-drop-one-resolve-other(core)", "long-lived-command-extended-repeatedly(direct)", "request-future-never-polled(capability api)", "request-future-never-polled(command api)", "timer-set-then-clear-in-one-update(capability api, typed)"]},
     "assumptions": [],
 }
 
